@@ -398,7 +398,8 @@ func runC04_7(c *core.Ctx) {
 	}
 	localCause := map[string]bool{"gnet.(*eventloop).handleAction": true, "gnet.(*eventloop).Close": true, "gnet.(*eventloop).closeConns": true,
 		"gnet.(*conn).Close": true, "gnet.(*conn).CloseWithCallback": true}
-	ioCause := map[string]bool{"gnet.(*conn).processIO": true, "gnet.(*conn).write": true, "gnet.(*conn).writev": true, "gnet.(*eventloop).write": true}
+	ioCause := map[string]bool{"gnet.(*conn).processIO": true, "gnet.(*conn).write": true, "gnet.(*conn).writev": true, "gnet.(*eventloop).write": true,
+		"gnet.(*eventloop).open": true, "gnet.(*conn).Flush": true}
 	closeAction, _ := c.P.Object("", "Close").(*types.Const)
 	if !c.Need("gnet.Close action", closeAction) {
 		return
@@ -434,6 +435,10 @@ func runC04_7(c *core.Ctx) {
 				t := target{call: call}
 				if inner, ok := ast.Unparen(call.Args[1]).(*ast.CallExpr); ok && flow.IsPkgFunc(f.Info, inner, "os", "NewSyscallError") && len(inner.Args) == 2 {
 					t.errObj = flow.ObjOf(f.Info, inner.Args[1])
+				} else if o := flow.ObjOf(f.Info, call.Args[1]); o != nil && isErrorType(o.Type()) && !flow.IsNil(f.Info, call.Args[1]) {
+					if _, isVar := o.(*types.Var); isVar && o.Pkg() != nil && f.P.InModule(o) && o.Parent() != o.Pkg().Scope() {
+						t.errObj = o // a local error variable passed as the cause
+					}
 				}
 				targets = append(targets, t)
 			}
